@@ -21,10 +21,10 @@
     Proofs/DateIso.v (C04_iso_week_nominal), so the theorems below are unconditional (the older form
     of the ISO-week theorem, named _modulo_isoweek, which carries that lemma as an explicit premise,
     is kept under its name). *)
-From Coq Require Import ZArith List Bool.
+From Coq Require Import ZArith List Bool String.
 From V Require Import Base.Int Base.IO Spec.Gregorian.
 From V Require Model.Date Model.Time.
-From V Require Model.DateExtra Model.C01 Model.Show.
+From V Require Model.DateExtra Model.C01 Model.Show Judge.C09 Proofs.C04Show.
 From V Require Import Model.DateTime Model.C04 Proofs.C04 Proofs.C04Date Proofs.C04Wide Proofs.C04Ops.
 Import ListNotations.
 Open Scope Z_scope.
@@ -590,3 +590,26 @@ Theorem C04_provided_wallclock : forall a, dtz_ok a ->
                          VInt sod; VInt (snd (iso_of_dn n) - 1)]).
 Proof. exact prov_wallclock. Qed.
 Print Assumptions C04_provided_wallclock.
+
+(* ---- z.show: Display / Debug of a zone-aware date-time ([utc] = true: DateTime<Utc>) print the documented
+        text (Judge/C09.v: date_text, time_text, offset_text) of the WALL-CLOCK reading, for every well-formed
+        value: wall clock nominal or in the one-day headroom, any fraction, any offset ([zone_text] = the judge's
+        offset_text, followed by ":ss" when the offset has a seconds part).  C09's C09_shape_dt is the case
+        "nominal wall clock, whole-minute offset, leap fraction only on second 59" (the domain in which the text
+        parses back); this theorem is built from the same writer lemmas of C09 (time_debug_text, time_shape,
+        year_shape, pad_dec_low, off_shape; the proof patterns of date_debug_text / fixed_debug_text without the
+        representation / whole-minute hypotheses) and C04's reading of the wall clock. *)
+Theorem C04_show_wallclock : forall a utc, dtz_ok a ->
+  let n := wall a / 86400 in let sod := wall a mod 86400 in let f := frac (dz_utc a) in
+  let y := fst (yo_of_dn n) in let o := snd (yo_of_dn n) in
+  Show.to_text (Show.dtz_display utc [] a) =
+    Val (Judge.C09.date_text y o ++ B" " ++ Judge.C09.time_text sod f ++ B" " ++
+         (if utc then B"UTC" else C04Show.zone_text (dz_off a))) /\
+  Show.to_text (Show.dtz_debug utc [] a) =
+    Val (Judge.C09.date_text y o ++ B"T" ++ Judge.C09.time_text sod f ++
+         (if utc then B"Z" else C04Show.zone_text (dz_off a))).
+Proof. exact C04Show.show_wallclock. Qed.
+Print Assumptions C04_show_wallclock.
+Theorem C04_show_zone_whole_minute : forall off, off mod 60 = 0 -> C04Show.zone_text off = Judge.C09.offset_text off.
+Proof. exact C04Show.zone_text_whole_minute. Qed.
+Print Assumptions C04_show_zone_whole_minute.
